@@ -391,6 +391,9 @@ def check(run):
         except Exception:
             raise AnalysisError(f"anchor vanished: {spec}")
         pq = Prov(ix, fi)
+        if spec == "trimesh.graph:connected_components":
+            # the engines are nested functions: whatever they are called, a result that comes out of one of them is computed
+            cores = cores + [f"PHI_{n_}" for n_ in fi.nested]
         for r in ast.walk(fi.node):
             if not isinstance(r, ast.Return) or pq.stmt_of_return(r) is None:
                 continue
